@@ -143,6 +143,11 @@ def _apply_ambient(W, ws_kwargs, manage_trace=True):
     return kw, bool(a["tls"])
 
 
+class InjectedInterrupt(KeyboardInterrupt):
+    """An interruption of a blocking call that is not an Exception (Ctrl-C, a gevent/eventlet style Timeout, a cancellation), injected
+    by a workload into a transport read: the application catches it and calls again."""
+
+
 def on_another_thread(fn):
     """Run fn() on a fresh thread (an actor of the running simulation) and wait for it; its result or exception is the caller's."""
     S = sched.CURRENT
@@ -391,6 +396,8 @@ def run_recv_script(stream, script, segs=None, ending="eof", ws_kwargs=None, tim
                 elif isinstance(it, tuple) and it[0] == "eagain":
                     import errno as _errno
                     cur.append((net.ERROR, BlockingIOError(_errno.EAGAIN, "Resource temporarily unavailable")))
+                elif isinstance(it, tuple) and it[0] == "interrupt":
+                    cur.append((net.ERROR, InjectedInterrupt()))
                 else:
                     cur.append(it)
             groups.append((t, cur))
@@ -463,6 +470,13 @@ def run_recv_script(stream, script, segs=None, ending="eof", ws_kwargs=None, tim
                 v = on_another_thread(lambda: call(name, cf)) if hop else call(name, cf)
                 out = ("ret", shape_value(name, v))
             except BaseException as e:  # noqa
+                if isinstance(e, InjectedInterrupt) and tries < max_timeouts:
+                    # the interruption this workload injected: the application calls again, like after a timeout
+                    timeouts += 1
+                    tries += 1
+                    if (not w.connected and not half_closed) or so._closed:
+                        post_timeout_bad.append((len(trace), w.connected, so._closed))
+                    continue
                 if isinstance(e, (sched.SimAbort, KeyboardInterrupt)):
                     raise
                 k = classify_exc(W, e)
